@@ -16,7 +16,13 @@ import (
 	"time"
 )
 
-const Root = "/verif"
+// Root is the framework directory (evidence, replays, known findings).
+var Root = func() string {
+	if r := os.Getenv("VERIF_ROOT"); r != "" {
+		return r
+	}
+	return "/verif"
+}()
 
 // Failure describes one violated case. Key identifies the defect (minimal
 // input, call site, (state,action) ...); it is what known findings match on.
